@@ -160,15 +160,23 @@ structure Block where
   count : Nat := 0
   deriving Repr, DecidableEq
 
-/-- `PrimitiveBlock::size()` -/
-def Block.size (b : Block) : Nat :=
-  b.groupSize + b.table.size + (if b.kind == 2 then b.rows.length * 3 * 8 else 0)
+/-- `DenseNodes::size()` (fix 9b8b2e0): ids/lat/lon 3*8, then per vector that the options fill:
+    versions 5, timestamps 10, changesets 10, uids 5, user_sids 5, visibles 1, and 5 per keys_vals entry -/
+def denseSize (o : Opts) (rows : List DenseRow) : Nat :=
+  let n := rows.length
+  n * 3 * 8 + (if o.mdVersion then n * 5 else 0) + (if o.mdTimestamp then n * 10 else 0) +
+  (if o.mdChangeset then n * 10 else 0) + (if o.mdUid then n * 5 else 0) + (if o.mdUser then n * 5 else 0) +
+  (if o.history then n else 0) + (rows.map fun r => r.tags.length).sum * 5
+
+/-- `PrimitiveBlock::size()`: group data + `m_stringtable.serialized_size()` + `m_dense_nodes->size()` -/
+def Block.size (o : Opts) (b : Block) : Nat :=
+  b.groupSize + b.table.serializedSize + (if b.kind == 2 then denseSize o b.rows else 0)
 
 /-- `PrimitiveBlock::can_add` -/
-def Block.canAdd (b : Block) (kind : Nat) : Bool :=
+def Block.canAdd (o : Opts) (b : Block) (kind : Nat) : Bool :=
   if kind != b.kind then false
   else if b.count ≥ maxEntitiesPerBlock then false
-  else b.size < maxUsedBlobSize
+  else b.size o < maxUsedBlobSize
 
 /-- `group_data()` -/
 def Block.groupData (o : Opts) (b : Block) : Bytes :=
@@ -182,27 +190,34 @@ def Block.message (o : Opts) (b : Block) : Bytes :=
 def be32 (n : Nat) : Bytes :=
   [UInt8.ofNat (n / 2 ^ 24 % 256), UInt8.ofNat (n / 2 ^ 16 % 256), UInt8.ofNat (n / 2 ^ 8 % 256), UInt8.ofNat (n % 256)]
 
-/-- `SerializeBlob::operator()` with `pbf_compression::none`: 4-byte length, BlobHeader, Blob -/
-def frameBlob (type : Bytes) (msg : Bytes) : Bytes :=
+/-- `SerializeBlob::operator()` with `pbf_compression::none`: 4-byte length, BlobHeader, Blob.
+    Since fix 9b8b2e0 a message of more than 32 MiB raises pbf_error (`none`) instead of an assert. -/
+def frameBlob (type : Bytes) (msg : Bytes) : Option Bytes :=
+  if msg.length > PbfFraming.maxUncompressedBlobSize then none else
   let blob := encodeFields [fBytes 1 msg]
   let hdr := encodeFields [fBytes 1 type, fVarint 3 (u64 (toInt32 blob.length))]
-  be32 (hdr.length % 2 ^ 32) ++ hdr ++ blob
+  some (be32 (hdr.length % 2 ^ 32) ++ hdr ++ blob)
 
 structure WState where
   cur : Option Block := none
   out : List Bytes := []           -- finished data blobs, newest first
+  failed : Bool := false           -- a SerializeBlob raised: the Writer reports the error
   deriving Repr, DecidableEq
 
 /-- `store_primitive_block` -/
 def WState.store (o : Opts) (s : WState) : WState :=
   match s.cur with
   | none => s
-  | some b => if b.count == 0 then s else { cur := none, out := frameBlob PbfFraming.osmData (b.message o) :: s.out }
+  | some b =>
+    if b.count == 0 then s else
+    match frameBlob PbfFraming.osmData (b.message o) with
+    | some f => { s with cur := none, out := f :: s.out }
+    | none => { s with cur := none, failed := true }
 
 /-- `switch_primitive_block_type` -/
 def WState.switchTo (o : Opts) (s : WState) (kind : Nat) : WState × Block :=
   match s.cur with
-  | some b => if b.canAdd kind then (s, b) else ((s.store o), { kind := kind })
+  | some b => if b.canAdd o kind then (s, b) else ((s.store o), { kind := kind })
   | none => (s, { kind := kind })
 
 /-- add one object encoded as group field `kind` -/
@@ -254,24 +269,29 @@ def boxUndefined : Location × Location := (Location.undefined, Location.undefin
 def joinedBoxes (bs : List (Location × Location)) : Location × Location :=
   bs.foldl (fun acc b => boxExtend (boxExtend acc b.1) b.2) boxUndefined
 
-/-- `write_header`.  `cv c` = `static_cast<int64_t>(fix_to_double(c) * lonlat_resolution)`: a double
-    computation, parameter of the model (the driver instantiates it with IEEE doubles). Header keys
-    other than generator/boxes (sorting, osmosis_replication_*) are not carried by `Osm.Header`. -/
-def encHeader (cv : Int → Int) (o : Opts) (h : Header) : List Field :=
-  (if h.boxes.isEmpty then [] else
+/-- `write_header` (since fix 4309424: exact integers, nanodegrees = fixed-point value * 100; an invalid
+    joined box raises invalid_location = `none`).  Header keys other than generator/boxes (sorting,
+    osmosis_replication_*) are not carried by `Osm.Header`. -/
+def encHeader (o : Opts) (h : Header) : Option (List Field) :=
+  let rest : List Field :=
+    [fBytes 4 "OsmSchema-V0.6".toUTF8.toList] ++
+    (if o.dense then [fBytes 4 "DenseNodes".toUTF8.toList] else []) ++
+    (if o.history then [fBytes 4 "HistoricalInformation".toUTF8.toList] else []) ++
+    (if o.locationsOnWays then [fBytes 5 "LocationsOnWays".toUTF8.toList] else []) ++
+    [fBytes 16 h.generator]
+  if h.boxes.isEmpty then some rest else
     let b := joinedBoxes h.boxes
-    [fBytes 1 (encodeFields [fVarint 1 (zigzag64 (cv b.1.x)), fVarint 2 (zigzag64 (cv b.2.x)),
-                             fVarint 3 (zigzag64 (cv b.2.y)), fVarint 4 (zigzag64 (cv b.1.y))])]) ++
-  [fBytes 4 "OsmSchema-V0.6".toUTF8.toList] ++
-  (if o.dense then [fBytes 4 "DenseNodes".toUTF8.toList] else []) ++
-  (if o.history then [fBytes 4 "HistoricalInformation".toUTF8.toList] else []) ++
-  (if o.locationsOnWays then [fBytes 5 "LocationsOnWays".toUTF8.toList] else []) ++
-  [fBytes 16 h.generator]
+    if !Location.isValid b.1 || !Location.isValid b.2 then none else
+    some ([fBytes 1 (encodeFields [fVarint 1 (zigzag64 (b.1.x * 100)), fVarint 2 (zigzag64 (b.2.x * 100)),
+                                   fVarint 3 (zigzag64 (b.2.y * 100)), fVarint 4 (zigzag64 (b.1.y * 100))])] ++ rest)
 
-/-- the whole file: header blob, then the data blobs in order (`write_end` stores the last block) -/
-def encodeFile (cv : Int → Int) (o : Opts) (h : Header) (objs : List Object) : Bytes :=
+/-- the whole file: header blob, then the data blobs in order (`write_end` stores the last block);
+    `none` = the Writer reported an error -/
+def encodeFile (o : Opts) (h : Header) (objs : List Object) : Option Bytes := do
+  let hf ← encHeader o h
+  let hb ← frameBlob PbfFraming.osmHeader (encodeFields hf)
   let s := (objs.foldl (WState.write o) {}).store o
-  frameBlob PbfFraming.osmHeader (encodeFields (encHeader cv o h)) ++ s.out.reverse.flatten
+  if s.failed then none else some (hb ++ s.out.reverse.flatten)
 
 /-! ## decoder -/
 
@@ -312,9 +332,9 @@ structure InfoAcc where
 /-- the version rule: `< -1` error, `-1 → 0` -/
 def versionOf (v : Int) : Option Nat := if v < -1 then none else if v == -1 then some 0 else some v.toNat
 
-/-- the changeset rule: `< -1 || >= UINT32_MAX` error, `-1 → 0` -/
+/-- the changeset rule: `< -1 || > UINT32_MAX` error (fix 04636d9; was `>=`), `-1 → 0` -/
 def changesetOf (c : Int) : Option Nat :=
-  if c < -1 || c ≥ 2 ^ 32 - 1 then none else if c == -1 then some 0 else some c.toNat
+  if c < -1 || c > 2 ^ 32 - 1 then none else if c == -1 then some 0 else some c.toNat
 
 /-- `set_uid_from_signed` -/
 def uidOf (u : Int) : Nat := if u < 0 then 0 else u.toNat
@@ -794,12 +814,9 @@ def project (o : Opts) : Object → Option Object
   | .changeset .. => none
 
 /-- the header as it comes back: one joined box, the generator, the history flag of the FILE options -/
-def projectHeader (cv : Int → Int) (o : Opts) (h : Header) : Header :=
+def projectHeader (o : Opts) (h : Header) : Header :=
   { generator := h.generator,
-    boxes := if h.boxes.isEmpty then [] else
-      let b := joinedBoxes h.boxes
-      [boxExtend (boxExtend boxUndefined (loc64 ((cv b.1.x).tdiv 100) ((cv b.1.y).tdiv 100)))
-        (loc64 ((cv b.2.x).tdiv 100) ((cv b.2.y).tdiv 100))],
+    boxes := if h.boxes.isEmpty then [] else [joinedBoxes h.boxes],
     multipleVersions := o.history }
 
 end Osmium.Pbf
